@@ -5,6 +5,13 @@
 package zzinv
 
 import (
+	"context"
+
+	sdk "github.com/cosmos/cosmos-sdk/types"
+
+	baskettypes "github.com/regen-network/regen-ledger/x/ecocredit/v3/basket/types/v1"
+	markettypes "github.com/regen-network/regen-ledger/x/ecocredit/v3/marketplace/types/v1"
+	basetypes "github.com/regen-network/regen-ledger/x/ecocredit/v3/base/types/v1"
 	basketapi "github.com/regen-network/regen-ledger/api/v2/regen/ecocredit/basket/v1"
 	marketapi "github.com/regen-network/regen-ledger/api/v2/regen/ecocredit/marketplace/v1"
 	api "github.com/regen-network/regen-ledger/api/v2/regen/ecocredit/v1"
@@ -44,46 +51,166 @@ func and(cs ...bool) bool {
 // AmountOK: a stored credit amount: non-negative decimal, at most Precision places.
 func AmountOK(s string) bool { return zz.DecStrOK(s, Precision) }
 
-func CreditTypeOK(r *api.CreditType) bool { return r.Precision == Precision }
+// Each XOK is the row invariant of table X: the module's own state validator (the real
+// Validate() of the gogo state type, merged into one formula) plus the amount-precision
+// and referential-integrity facts that Validate does not check.
+
+func CreditTypeOK(r *api.CreditType) bool {
+	return zz.Merged(func() bool {
+		var g basetypes.CreditType
+		zz.PulsarToGogo(&g, r)
+		return g.Validate() == nil
+	})
+}
 
 func ClassOK(r *api.Class) bool {
-	return and(zz.OrmExists0(TCreditType, r.CreditTypeAbbrev), zz.Not(zz.BytesEq(r.Admin, nil)))
+	v := zz.Merged(func() bool {
+		var g basetypes.Class
+		zz.PulsarToGogo(&g, r)
+		return g.Validate() == nil
+	})
+	return and(v, zz.OrmExists0(TCreditType, r.CreditTypeAbbrev))
+}
+
+func ClassIssuerOK(r *api.ClassIssuer) bool {
+	v := zz.Merged(func() bool {
+		var g basetypes.ClassIssuer
+		zz.PulsarToGogo(&g, r)
+		return g.Validate() == nil
+	})
+	return and(v, zz.OrmExists0(TClass, r.ClassKey))
 }
 
 func ProjectOK(r *api.Project) bool {
-	return and(zz.OrmExists0(TClass, r.ClassKey), zz.Not(zz.BytesEq(r.Admin, nil)))
+	v := zz.Merged(func() bool {
+		var g basetypes.Project
+		zz.PulsarToGogo(&g, r)
+		return g.Validate() == nil
+	})
+	return and(v, zz.OrmExists0(TClass, r.ClassKey))
 }
 
 // BatchOK: the batch's project and class exist, the class id embedded in the denom is the
 // id of that class, and the supply row exists.
 func BatchOK(r *api.Batch) bool {
+	v := zz.Merged(func() bool {
+		var g basetypes.Batch
+		zz.PulsarToGogo(&g, r)
+		return g.Validate() == nil
+	})
 	var p api.Project
 	pe := zz.OrmRow0(TProject, &p, r.ProjectKey)
 	var c api.Class
 	ce := zz.OrmRow0(TClass, &c, p.ClassKey)
-	return and(pe, ce, zz.StrEq(base.GetClassIDFromBatchDenom(r.Denom), c.Id),
-		zz.OrmExists0(TBatchSupply, r.Key), zz.Not(zz.BytesEq(r.Issuer, nil)))
+	return and(v, pe, ce, zz.StrEq(base.GetClassIDFromBatchDenom(r.Denom), c.Id), zz.OrmExists0(TBatchSupply, r.Key))
 }
 
 func BatchBalanceOK(r *api.BatchBalance) bool {
-	return and(AmountOK(r.TradableAmount), AmountOK(r.RetiredAmount), AmountOK(r.EscrowedAmount),
-		zz.OrmExists0(TBatch, r.BatchKey), zz.Not(zz.BytesEq(r.Address, nil)))
+	v := zz.Merged(func() bool {
+		var g basetypes.BatchBalance
+		zz.PulsarToGogo(&g, r)
+		return g.Validate() == nil
+	})
+	return and(v, AmountOK(r.TradableAmount), AmountOK(r.RetiredAmount), AmountOK(r.EscrowedAmount), zz.OrmExists0(TBatch, r.BatchKey))
 }
 
 func BatchSupplyOK(r *api.BatchSupply) bool {
-	return and(AmountOK(r.TradableAmount), AmountOK(r.RetiredAmount), AmountOK(r.CancelledAmount),
-		zz.OrmExists0(TBatch, r.BatchKey))
+	v := zz.Merged(func() bool {
+		var g basetypes.BatchSupply
+		zz.PulsarToGogo(&g, r)
+		return g.Validate() == nil
+	})
+	return and(v, AmountOK(r.TradableAmount), AmountOK(r.RetiredAmount), AmountOK(r.CancelledAmount), zz.OrmExists0(TBatch, r.BatchKey))
+}
+
+func BatchContractOK(r *api.BatchContract) bool {
+	v := zz.Merged(func() bool {
+		var g basetypes.BatchContract
+		zz.PulsarToGogo(&g, r)
+		return g.Validate() == nil
+	})
+	return and(v, zz.OrmExists0(TBatch, r.BatchKey), zz.OrmExists0(TClass, r.ClassKey))
+}
+
+func ClassFeeOK(r *api.ClassFee) bool {
+	return zz.Merged(func() bool {
+		var g basetypes.ClassFee
+		zz.PulsarToGogo(&g, r)
+		return g.Validate() == nil
+	})
+}
+
+func ClassSequenceOK(r *api.ClassSequence) bool   { return r.NextSequence >= 1 }
+func ProjectSequenceOK(r *api.ProjectSequence) bool { return r.NextSequence >= 1 }
+func BatchSequenceOK(r *api.BatchSequence) bool   { return r.NextSequence >= 1 }
+
+func BasketOK(r *basketapi.Basket) bool {
+	v := zz.Merged(func() bool {
+		var g baskettypes.Basket
+		zz.PulsarToGogo(&g, r)
+		return g.Validate() == nil
+	})
+	// Basket.Validate's denom regex uses unescaped dots, so it alone does not imply a valid
+	// bank denom; every denom produced by Create is one (shown on the Create step).
+	return and(v, zz.OrmExists0(TCreditType, r.CreditTypeAbbrev), zz.ValidSdkDenom(r.BasketDenom))
+}
+
+func BasketClassOK(r *basketapi.BasketClass) bool {
+	var c api.Class
+	return and(zz.OrmExists0(TBasket, r.BasketId), zz.OrmLookup0(TClass, "Id", &c, r.ClassId))
 }
 
 func BasketBalanceOK(r *basketapi.BasketBalance) bool {
+	v := zz.Merged(func() bool {
+		var g baskettypes.BasketBalance
+		zz.PulsarToGogo(&g, r)
+		return g.Validate() == nil
+	})
 	var b api.Batch
 	be := zz.OrmLookup0(TBatch, "Denom", &b, r.BatchDenom)
-	return and(AmountOK(r.Balance), zz.OrmExists0(TBasket, r.BasketId), be)
+	return and(v, AmountOK(r.Balance), zz.OrmExists0(TBasket, r.BasketId), be)
+}
+
+func BasketFeeOK(r *basketapi.BasketFee) bool {
+	return zz.Merged(func() bool {
+		var g baskettypes.BasketFee
+		zz.PulsarToGogo(&g, r)
+		return g.Validate() == nil
+	})
 }
 
 func SellOrderOK(r *marketapi.SellOrder) bool {
-	return and(AmountOK(r.Quantity), zz.QLt(zz.QInt(0), zz.QParse(r.Quantity)),
-		zz.OrmExists0(TBatch, r.BatchKey), zz.OrmExists0(TMarket, r.MarketId), zz.Not(zz.BytesEq(r.Seller, nil)))
+	v := zz.Merged(func() bool {
+		var g markettypes.SellOrder
+		zz.PulsarToGogo(&g, r)
+		return g.Validate() == nil
+	})
+	return and(v, AmountOK(r.Quantity), zz.QLt(zz.QInt(0), zz.QParse(r.Quantity)),
+		zz.OrmExists0(TBatch, r.BatchKey), zz.OrmExists0(TMarket, r.MarketId))
+}
+
+func MarketOK(r *marketapi.Market) bool {
+	return zz.Merged(func() bool {
+		var g markettypes.Market
+		zz.PulsarToGogo(&g, r)
+		return g.Validate() == nil
+	})
+}
+
+func AllowedDenomOK(r *marketapi.AllowedDenom) bool {
+	return zz.Merged(func() bool {
+		var g markettypes.AllowedDenom
+		zz.PulsarToGogo(&g, r)
+		return g.Validate() == nil
+	})
+}
+
+func FeeParamsOK(r *marketapi.FeeParams) bool {
+	return zz.Merged(func() bool {
+		var g markettypes.FeeParams
+		zz.PulsarToGogo(&g, r)
+		return g.Validate() == nil
+	})
 }
 
 // Install registers the row invariants: each is assumed for every row of the pre-state
@@ -91,12 +218,24 @@ func SellOrderOK(r *marketapi.SellOrder) bool {
 func Install() {
 	zz.OrmInvariant(TCreditType, CreditTypeOK)
 	zz.OrmInvariant(TClass, ClassOK)
+	zz.OrmInvariant(TClassIssuer, ClassIssuerOK)
 	zz.OrmInvariant(TProject, ProjectOK)
 	zz.OrmInvariant(TBatch, BatchOK)
 	zz.OrmInvariant(TBatchBalance, BatchBalanceOK)
 	zz.OrmInvariant(TBatchSupply, BatchSupplyOK)
+	zz.OrmInvariant(TBatchContract, BatchContractOK)
+	zz.OrmInvariant("regen.ecocredit.v1.ClassFee", ClassFeeOK)
+	zz.OrmInvariant("regen.ecocredit.v1.ClassSequence", ClassSequenceOK)
+	zz.OrmInvariant("regen.ecocredit.v1.ProjectSequence", ProjectSequenceOK)
+	zz.OrmInvariant("regen.ecocredit.v1.BatchSequence", BatchSequenceOK)
+	zz.OrmInvariant(TBasket, BasketOK)
+	zz.OrmInvariant(TBasketClass, BasketClassOK)
 	zz.OrmInvariant(TBasketBalance, BasketBalanceOK)
+	zz.OrmInvariant("regen.ecocredit.basket.v1.BasketFee", BasketFeeOK)
 	zz.OrmInvariant(TSellOrder, SellOrderOK)
+	zz.OrmInvariant(TMarket, MarketOK)
+	zz.OrmInvariant(TAllowedDenom, AllowedDenomOK)
+	zz.OrmInvariant("regen.ecocredit.marketplace.v1.FeeParams", FeeParamsOK)
 	// sum invariants are instantiated as soon as the rows they relate have been read
 	zz.OrmOnTouch(TBatchBalance, AssumeSums)
 	zz.OrmOnTouch(TBatchSupply, AssumeSums)
@@ -122,6 +261,17 @@ func AssumeSums() {
 		})
 		return zz.And(zz.QLe(zz.QAdd(held, inBaskets), zz.QParse(s.TradableAmount)), zz.QLe(retired, zz.QParse(s.RetiredAmount)))
 	}))
+}
+
+// Skolems are the arbitrary batch / account / bank denom the step obligations talk about.
+type Skolems struct {
+	Batch uint64
+	Acct  []byte
+	Denom string
+}
+
+func PickSkolems() Skolems {
+	return Skolems{Batch: zz.NondetU64("batch*"), Acct: zz.NondetBytesAtom("acct*"), Denom: zz.NondetAtom("denom*")}
 }
 
 // ---- per-step deltas for a skolem batch
@@ -179,7 +329,8 @@ func DeltaBaskets(denom string) zz.Q {
 func CheckC01(b uint64) {
 	ds := DeltaSupply(b)
 	db := DeltaBalances(b)
-	dk := DeltaBaskets(BatchDenom(b))
+	// basket holdings are keyed by denom: only an existing batch has one
+	dk := zz.QIf(zz.OrmExists1(TBatch, b), DeltaBaskets(BatchDenom(b)), q0())
 	zz.Assert(zz.QEq(ds.Tradable, zz.QAdd(zz.QAdd(db.Tradable, db.Escrowed), dk)), "C01 tradable supply delta = balances + escrow + baskets delta")
 	zz.Assert(zz.QEq(ds.Retired, db.Retired), "C01 retired supply delta = retired balances delta")
 	zz.Assert(zz.AllWritten(TBatchBalance, func(r *api.BatchBalance) bool {
@@ -218,4 +369,47 @@ func CheckC03(a []byte, b uint64, d string) {
 	da := DeltaAccount(a, b)
 	zz.Assert(zz.QLe(q0(), zz.QAdd(da.Tradable, da.Escrowed)), "C03 a non-signer's tradable+escrowed credits do not decrease")
 	zz.Assert(zz.QLe(zz.BankBal0(a, d), zz.BankBal1(a, d)), "C03 a non-signer's coins do not decrease")
+}
+
+// ---- the generic one-step harness (DESIGN section 4)
+
+type Step struct {
+	Authority []byte
+	Signer    []byte
+	Sk        Skolems
+	Err       error
+}
+
+// RunStep: arbitrary pre-state satisfying R, arbitrary request accepted by ValidateBasic,
+// one handler execution, rollback on error, then the per-step obligations of C01..C04
+// (and whatever the handler-specific hook adds).
+func RunStep(authority []byte, req sdk.Msg, call func(ctx context.Context) error, issued func(b uint64) zz.Q, hook func(s *Step)) {
+	zz.NondetInto("req", req)
+	zz.Assume(req.ValidateBasic() == nil)
+	s := &Step{Authority: authority, Sk: PickSkolems()}
+	s.Signer = req.GetSigners()[0]
+	zz.OrmBegin()
+	s.Err = call(zz.Context())
+	zz.OrmRollbackIf(s.Err != nil)
+	CheckC01(s.Sk.Batch)
+	iss := zz.QInt(0)
+	if issued != nil && s.Err == nil {
+		iss = issued(s.Sk.Batch)
+	}
+	CheckC02(s.Sk.Batch, iss)
+	CheckC04(s.Sk.Acct, s.Sk.Batch)
+	if hook != nil {
+		hook(s)
+	}
+	if s.Err == nil {
+		zz.Reach("handler succeeds")
+	} else {
+		zz.Reach("handler fails")
+	}
+	// C03 last: it restricts the skolem account to accounts that did not sign
+	zz.Assume(zz.Not(zz.BytesEq(s.Sk.Acct, s.Signer)))
+	zz.Assume(zz.Not(zz.IsModuleAccount(s.Sk.Acct)))
+	if s.Err != nil || !zz.Symbolic() || true {
+		CheckC03(s.Sk.Acct, s.Sk.Batch, s.Sk.Denom)
+	}
 }
